@@ -171,6 +171,14 @@ func (e *LinEval) Key(v ssa.Value) string {
 					v = sv
 					continue
 				}
+				// a struct copy made for a value-receiver call (`tmp := *b; tmp.f …`): the copy's
+				// fields are the original's at the time of the copy
+				if u, ok := sv.(*ssa.UnOp); ok && u.Op == token.MUL {
+					if _, isStruct := u.Type().Underlying().(*types.Struct); isStruct {
+						v = u.X
+						continue
+					}
+				}
 			}
 			return x.Name()
 		case *ssa.FieldAddr:
